@@ -81,6 +81,9 @@ WITNESS = {'D6': 'D6_NotObservable', 'D3': 'D3_NotTaken',
 
 PLAN.update({
     'C08': {
+        'walks': [('cstate_big', 60, 1500, 80)],
+        'walk_inv': ['C08_Mirror', 'C08_FullyDisconnected',
+                     'C08_HandlersOnce'],
         'fam': 'client',
         'inv': ['C08_Mirror', 'C08_FullyDisconnected', 'C08_ConnectOutcome',
                 'C08_BadNamespace', 'C08_HandlersOnce'],
@@ -183,6 +186,8 @@ PLAN.update({
         'thorough': [k for k in admin.CONFIGS],
     },
     'C09': {
+        'walks': [('cacks_big', 40, 1000, 60)],
+        'walk_inv': ['C09_IssuedMatchesCore'],
         'fam': 'client',
         'inv': ['C09_EventDispatch', 'C09_IssuedIdUnique', 'C09_AckOutcome',
                 'C09_IssuedMatchesCore'],
